@@ -27,7 +27,7 @@ EXPLANATION = (
     '-> waitReady -> exactly one readyok; every exit of the protocol loop passes engineThread.quit(); the quit command '
     'sets the quit flag; (6) Parameters::set is not reachable from the protocol thread. This decides the structural '
     'part of the contract, not the behaviour.'
-    ' (9) the command parser never rejects a token it has already consumed (list terminators are peeked at); (10) for a remaining time <= 0 the final soft and hard limits are not negative, so a clock-limited go cannot degenerate into an unlimited search; (12) every limit field computeTimeLimit derives from the go is handed to startThread / Search::timeLimit on every go path - at the start, or for a ponder search by the release that lets it continue - in the argument position of the same name; (13) every insertion into the output stream held by the UCI classes is made with one common mutex held (locally or by every caller), and nothing called with that mutex held acquires it again or waits for another thread. (16) = C10.11 the two computations of `infinite` agree. (17) = C10.12 isready never blocks on an engine thread that is holding its answer. (18) = C03.6 the MultiPV count that indexes the root list is clamped to that list.')
+    ' (9) the command parser never rejects a token it has already consumed (list terminators are peeked at); (10) for a remaining time <= 0 the final soft and hard limits are not negative, so a clock-limited go cannot degenerate into an unlimited search; (12) every limit field computeTimeLimit derives from the go is handed to startThread / Search::timeLimit on every go path - at the start, or for a ponder search by the release that lets it continue - in the argument position of the same name; (13) every insertion into the output stream held by the UCI classes is made with one common mutex held (locally or by every caller), and nothing called with that mutex held acquires it again or waits for another thread. (16) = C10.11 the two computations of `infinite` agree. (17) = C10.12 isready never blocks on an engine thread that is holding its answer. (18) = C03.6 the MultiPV count that indexes the root list is clamped to that list. (19) = C12.1 a Hash change or Clear Hash never leaves a tablebase handle that points outside the table.')
 UNDECIDED = ('hangs caused by search-time behaviour, well-formedness of printed numbers, promptness in wall-clock '
              'terms, liveness of the thread hand-shake (see C10).')
 ASSUMPTIONS = [
@@ -66,6 +66,10 @@ def run(fb, rep, tier):
     # which strength limiting can shrink below the count of legal moves (shared with C03.6)
     from . import C03
     C03.c6_count_clamp(fb, rep, 'C05.18')
+    # .19 a Hash change / Clear Hash never leaves a tablebase handle that points outside the table: the next go would crash
+    # instead of answering (shared with C12.1)
+    from . import C12
+    C12.c1_typestate(fb, rep, 'C05.19')
     c12_limits_reach_search(fb, rep)
     c13_output_lines(fb, rep, cg)
     c14_limited_strength_single_thread(fb, rep)
